@@ -39,6 +39,7 @@ def ft_sh_phase_screen(r0, N, delta, L0, l0, FFT=None, seed=None):
     """
     R = numpy.random.default_rng(seed)
 
+    N = int(N)
     D = N * delta
     # high-frequency screen from FFT method
     # draw from the same generator: built again from an integer seed, the sub-harmonic draws below would
@@ -115,6 +116,7 @@ def ft_phase_screen(r0, N, delta, L0, l0, FFT=None, seed=None):
     Returns:
         ndarray: numpy array representing phase screen in radians
     """
+    N = int(N)
     delta = float(delta)
     r0 = float(r0)
     L0 = float(L0)
